@@ -1,7 +1,7 @@
 SPECIFICATION Spec
 CONSTANTS
   Encodings = {"basic", "packed"}
-  Levels = {"transport", "conn"}
+  Levels = {"transport", "prealloc", "conn"}
   MaxAt = 7
   Ks = {0, 1, 3, 7, 99}
 INVARIANT Emit
